@@ -68,4 +68,5 @@ Definition oracle_case (k : case) : bool :=
   match k with
   | Sched _ rs rounds p _ => negb p && forallb (fun pre => bound_ok rs pre && released_ok pre) (prefixes rounds)
   | GoChecked _ _ ok => ok
+  | Http _ => true
   end.
